@@ -451,7 +451,10 @@ where
 
     // reserve space for: parent info, and
     // 8 bytes for SlicePayload::data length
-    let parent_encoded_len = wincode::serialized_size(&parent)
+    // NOTE: room for a parent is reserved even if this slice starts without one,
+    // optimistic handover may still put one on it (see `apply_parent_ready`)
+    let max_parent: Option<BlockId> = Some((Slot::genesis(), GENESIS_BLOCK_HASH));
+    let parent_encoded_len = wincode::serialized_size(&max_parent)
         .expect("computing serialized size of parent should not fail")
         as usize;
     let buffer_space = MAX_DATA_PER_SLICE - parent_encoded_len - 8;
